@@ -126,6 +126,16 @@ func (s *Storage) Delete(key string) error {
 	return nil
 }
 
+// FailNextDelete makes the next Delete call return an injected error (and leave the record in place)
+func (s *Storage) FailNextDelete() {
+	s.mu.Lock()
+	if s.FailDelete == nil {
+		s.FailDelete = map[int]bool{}
+	}
+	s.FailDelete[s.nDel+1] = true
+	s.mu.Unlock()
+}
+
 func (s *Storage) Reset() error {
 	s.mu.Lock()
 	s.m = map[string]entry{}
